@@ -1,7 +1,9 @@
 #!/bin/sh
-# all quick checks on /repo (scratch evidence unless EVID=1), 3 at a time
-cd /verif
-run() { p=$1; if [ "$EVID" = 1 ]; then ./check $p --tier quick > /tmp/q_$p.log 2>&1; else VERIF_SCRATCH_EVIDENCE=1 ./check $p --tier quick > /tmp/q_$p.log 2>&1; fi; echo "$p exit=$? $(tail -1 /tmp/q_$p.log | cut -c1-200)"; }
+# all quick checks on /repo, 3 at a time.  EVID=1: write the committed evidence (default: scratch evidence);
+# REBASE=1: also rewrite the baseline of obligation kinds from this run
+cd "$(dirname "$0")/.."
+FLAGS=""; [ "$REBASE" = 1 ] && FLAGS="--rebaseline"
+run() { p=$1; if [ "$EVID" = 1 ]; then ./check $p --tier quick $FLAGS > /tmp/q_$p.log 2>&1; else VERIF_SCRATCH_EVIDENCE=1 ./check $p --tier quick $FLAGS > /tmp/q_$p.log 2>&1; fi; echo "$p exit=$? $(grep ' exit=' /tmp/q_$p.log | tail -1 | cut -c1-200)"; }
 for grp in "C01 C02 C07" "C03 C04 C15" "C05 C06 C08" "C09 C10 C11" "C12 C13 C14" "C16 C17 C19" "C18 C20"; do
   for p in $grp; do run $p & done; wait
 done
